@@ -760,7 +760,8 @@ def gen_case(ctx: Ctx, rng, max_n: int) -> dict:
     r = rng.random()
     sizes = [1, 2, 2, 3, 3, 3, 4, 4, 4, 5, 5, 6] * 2 + ([7, 8] if max_n >= 8 else [])
     n = rng.choice([s for s in sizes if s <= max_n])
-    case: dict = {"seed": rng.randrange(10**6)}
+    # boundary seeds (0 is falsy, 2**31 - 1 / 2**32 - 1 are the edges of the derived-seed range) with fixed probability
+    case: dict = {"seed": rng.choice([0, 0, 1, 2**31 - 1, 2**32 - 1]) if rng.random() < 0.2 else rng.randrange(10**6)}
     if r < 0.30:
         style = rng.choice(["dense", "dense", "real", "sparse", "identity", "tiny"])
         st = rand_reck_settings(rng, n, style)
